@@ -116,6 +116,12 @@ func pickLen(rng *rand.Rand, lo, hi int) int {
 
 // randomVariant picks one allowed content for a dirty file.
 func randomVariant(rng *rand.Rand, f FileState) ([]byte, string) {
+	if atomicRecord(f) {
+		if rng.Intn(2) == 0 {
+			return f.Cur, "cur"
+		}
+		return f.Dur, "old"
+	}
 	lo, hi := lenRange(f)
 	switch k := rng.Intn(3); {
 	case k == 0:
@@ -128,6 +134,16 @@ func randomVariant(rng *rand.Rand, f FileState) ([]byte, string) {
 		Z := pickLen(rng, len(f.Dur), L)
 		return newVariant(f, Z, L), fmt.Sprintf("new(Z=%d,L=%d)", Z, L)
 	}
+}
+
+// AtomicRecordSize: a file not longer than this whose unsynced modifications rewrite bytes
+// inside its synced region (a small record updated in place, e.g. the freezer's .meta) is
+// treated as sector-atomic: after power loss it holds either the last synced version or the
+// current one, never a byte-level mixture (torn sub-sector writes are outside the model).
+var AtomicRecordSize = 512
+
+func atomicRecord(f FileState) bool {
+	return f.Dirty && len(f.Dur) > 0 && f.Low < len(f.Dur) && len(f.Cur) <= AtomicRecordSize && len(f.Dur) <= AtomicRecordSize
 }
 
 // PowerStates returns the systematic variant set plus nRandom random combinations for the
@@ -167,6 +183,9 @@ func (fs *FS) PowerStates(rng *rand.Rand, nRandom int) []CrashState {
 		m = base()
 		m[f.Path] = oldVariant(f, len(f.Dur))
 		add(f.Path+":old", m)
+		if atomicRecord(f) {
+			continue
+		}
 		if len(f.Cur) > len(f.Dur) {
 			m = base()
 			m[f.Path] = oldVariant(f, len(f.Cur))
